@@ -149,6 +149,9 @@ func selfTest() string {
 	if s := fig9SelfTest(); s != "" {
 		return s
 	}
+	if s := closersSelfTest(); s != "" {
+		return s
+	}
 	// the independent reader on a stream written by hand from the standard's syntax
 	src := []byte("q 1 0 0 1 .5 -2 cm\r/F1 12 Tf BT (a\\)\\051) Tj [(A) -50 <4142>]TJ ET % c\nBI /W 2/H 1 /BPC 8 ID \x00\xff\nEI Q\n/P <</MCID 1>> BDC EMC")
 	got, err := independentOps(src, []int{2})
@@ -184,7 +187,7 @@ func Run(tier string) int {
 	}
 	r := ev.New("C15", tier, "model_checking", budget)
 	rn := &runner{r}
-	r.Rule("(a)-(c): a case is an operator sequence written with Operators.RawBytes/Operator.Format and read back by the content scanner whole, in chunks, as 1, 2 and 3 content streams of a page cut at every operator boundary, and by an independent tokenizer; (d): a case is a history of Builder calls executed on a fresh Builder, its output re-read and run through an independent automaton for ISO 32000 Figure 9 + balance rules. distinct = distinct serialised byte strings of cases that have at least one operand or more than one operator (Builder: non-empty output)")
+	r.Rule("(a)-(c): a case is an operator sequence written with Operators.RawBytes/Operator.Format and read back by the content scanner whole, in chunks, as 1, 2 and 3 content streams of a page cut at every operator boundary, and by an independent tokenizer; (d): a case is a history of Builder calls executed on a fresh Builder, its output re-read and run through an independent automaton for ISO 32000 Figure 9 + balance rules, and, for every accepted history, the re-read output completed with the closing operators the library offers for its end state (State.ClosingOperators of the Builder's State, of a strict and of a permissive replay State, and the closers reader.Reader.ProcessIter synthesises) judged by the same automaton: every closer allowed where it stands, nothing open after the last one. distinct = distinct serialised byte strings of cases that have at least one operand or more than one operator (Builder: non-empty output)")
 	r.Assume("independent tokenizer ref/pdfsyn (content mode) written from ISO 32000-2 7.2/7.3/7.8.2/8.9.7",
 		"Figure 9 automaton written from ISO 32000-1 Figure 9, Table 51 and 14.6.1; q/Q inside text objects accepted for PDF 2.0 (the library's reading), nothing demanded about q/Q relative to marked content",
 		"inline image data under an ASCII filter (first filter AHx/A85) is compared modulo white space (8.9.7 lets any white space follow ID there)",
@@ -254,6 +257,7 @@ func Run(tier string) int {
 		cn = append(cn, c.name)
 	}
 	r.Dim("builder_call_names", cn)
+	r.Dim("builder_closers_state_sources", closerSources)
 	var confNames []string
 	for n := range table50 {
 		if n != "BI" && n != "ID" && n != "EI" {
